@@ -238,7 +238,7 @@ public:
 /* std::set<symbol_t> as a bit mask over symbol ids */
 struct verif_symset_it
 {
-    int pos; /* VERIF_NSYM == end */
+    int pos; /* -1 = the null symbol symbol_t(); VERIF_NSYM == end */
     unsigned mask;
     bool operator==(const verif_symset_it& o) const { return pos == o.pos; }
     bool operator!=(const verif_symset_it& o) const { return pos != o.pos; }
@@ -253,6 +253,7 @@ struct verif_symset_it
 struct verif_symset
 {
     unsigned mask;
+    bool has_null; /* the null symbol symbol_t() is a member (collect_possible_reads' random marker) */
     verif_symset(): mask(0), has_null(false) {}
     void insert(const symbol_t& s) { if (s.id >= 0 && s.id < VERIF_NSYM) mask |= (1u << s.id); else has_null = true; }
     /* range insert of a whole set: insert(o.begin(), o.end()) */
@@ -261,13 +262,14 @@ struct verif_symset
         __CPROVER_assert(e.pos == VERIF_NSYM, "stub: range insert takes [begin, end) of a whole set");
         mask |= b.mask;
     }
-    bool has_null; /* the null symbol symbol_t() was inserted (collect_possible_reads' random marker) */
+    void erase(const symbol_t& s) { if (s.id >= 0 && s.id < VERIF_NSYM) mask &= ~(1u << s.id); else has_null = false; }
     verif_symset_it end() const { verif_symset_it i; i.pos = VERIF_NSYM; i.mask = mask; return i; }
     verif_symset_it begin() const
     {
         verif_symset_it i;
-        i.pos = 0;
         i.mask = mask;
+        if (has_null) { i.pos = -1; return i; }
+        i.pos = 0;
         while (i.pos < VERIF_NSYM && !((mask >> i.pos) & 1)) i.pos++;
         return i;
     }
@@ -275,10 +277,11 @@ struct verif_symset
     {
         verif_symset_it i = end();
         if (s.id >= 0 && s.id < VERIF_NSYM && ((mask >> s.id) & 1)) i.pos = s.id;
+        if (s.id < 0 && has_null) i.pos = -1;
         return i;
     }
     bool empty() const { return mask == 0 && !has_null; }
-    size_t size() const { size_t n = 0; for (int i = 0; i < VERIF_NSYM; i++) n += (mask >> i) & 1; return n; }
+    size_t size() const { size_t n = has_null ? 1 : 0; for (int i = 0; i < VERIF_NSYM; i++) n += (mask >> i) & 1; return n; }
 };
 
 inline verif_symset_it find_first_of(const verif_symset_it& b1, const verif_symset_it& e1, const verif_symset_it& b2, const verif_symset_it& e2)
